@@ -6,6 +6,8 @@
 From Coq Require Import List Arith Bool Permutation.
 Import ListNotations.
 From TF Require Import Model.Dispatch Proofs.Dispatch.
+From Coq Require ZArith.
+From TF Require Model.Sched Proofs.Sched Gen.SchedUse Proofs.SchedUse.
 
 (* every index of the main pass is decided in order, exactly once, as either a
    hand-out or a skip; a skip only happens when the plan is known, the chunk is
@@ -80,3 +82,109 @@ Proof. vm_compute. reflexivity. Qed.
 Example C17_prefix_witness_now_safe :
   snd (run (init 1) [Take; VerifyStart; VerdictMismatch 0; Finish]) = [OTake [] (Some 0); OUnit; OUnit; OEnd false].
 Proof. vm_compute. reflexivity. Qed.
+
+(* ------------------------------------------------------------------------- *)
+(* "every file of the manifest is begun exactly once ... for all orders in
+   which file slots free up": the hybrid scheduler (Model/Sched.v, checked
+   call by call against the real HybridScheduler) and the way the sender uses
+   it (Add all, activateNext = Next + Add-as-started, Remove on FileDone; the
+   call sites are read off multistream.go into Gen/SchedUse.v). *)
+Module Files.
+Import ZArith TF.Model.Sched TF.Proofs.Sched.
+Local Open Scope Z_scope.
+
+(* on every reachable scheduler state, whatever the clock and the credit
+   oracle: Next returns only a file that is in the table and not yet started,
+   marks exactly that file started and changes nothing else *)
+Theorem C17_sched_next_pending : forall c ops now ch s' k,
+  (fracNum c <= 0 \/ 0 < fracDen c) ->
+  let s := fst (run (init c) ops) in
+  next s now ch = (s', Some k) ->
+  exists m, lookup k (files s) = Some m /\ mstarted m = false /\
+            lookup k (files s') = Some (mark now m) /\
+            (forall k', k' <> k -> lookup k' (files s') = lookup k' (files s)).
+Proof. exact next_reachable. Qed.
+Print Assumptions C17_sched_next_pending.
+
+(* Next refuses with files pending only while the small-file slots are taken by
+   running small files (so a running file exists whose completion frees a slot) *)
+Theorem C17_sched_refusal : forall c ops now ch s',
+  (fracNum c <= 0 \/ 0 < fracDen c) ->
+  let s := fst (run (init c) ops) in
+  next s now ch = (s', None) ->
+  s' = s /\ (pending (files s) <> [] -> 1 <= small_slots (conf s) <= active_small (files s)).
+Proof. exact refusal_reachable. Qed.
+Print Assumptions C17_sched_refusal.
+
+(* over ALL usage histories (any interleaving of activateNext calls and FileDone
+   arrivals, any clock, any credit choices, any stream count, any manifest): no
+   file is begun twice, only manifest files are begun, the active set is within
+   the begun set and never larger than the number of streams *)
+Theorem C17_files_begun_once : forall c n fs evs,
+  (fracNum c <= 0 \/ 0 < fracDen c) ->
+  let u := urun (uinit c n fs) evs in
+  NoDup (begun u) /\ incl (begun u) (mkeys fs) /\ incl (active u) (begun u) /\
+  (length (active u) <= n)%nat.
+Proof. exact usage_once. Qed.
+Print Assumptions C17_files_begun_once.
+
+(* whatever order the slots freed up in: once nothing is active, the next
+   activateNext begins a file that was not begun before, as long as one is left *)
+Theorem C17_files_live : forall c n fs evs now ch,
+  (fracNum c <= 0 \/ 0 < fracDen c) -> (0 < n)%nat ->
+  let u := urun (uinit c n fs) evs in
+  active u = [] -> (exists k, In k (mkeys fs) /\ ~ In k (begun u)) ->
+  exists k', begun (ustep u (UNext now ch)) = k' :: begun u /\ ~ In k' (begun u).
+Proof. exact usage_live. Qed.
+Print Assumptions C17_files_live.
+
+(* ... hence a quiescent state has begun every file of the manifest exactly once *)
+Theorem C17_files_all_begun : forall c n fs evs,
+  (fracNum c <= 0 \/ 0 < fracDen c) -> (0 < n)%nat -> NoDup (mkeys fs) ->
+  let u := urun (uinit c n fs) evs in
+  active u = [] -> (forall now ch, ustep u (UNext now ch) = u) ->
+  Permutation (begun u) (mkeys fs).
+Proof. exact usage_quiescent_complete. Qed.
+Print Assumptions C17_files_all_begun.
+
+(* ... and quiescence is reached: every event that changes anything decreases
+   2 * (files not begun) + (files active) *)
+Theorem C17_files_measure : forall c n fs evs e,
+  (fracNum c <= 0 \/ 0 < fracDen c) ->
+  let u := urun (uinit c n fs) evs in
+  ustep u e = u \/ (umeasure (ustep u e) < umeasure u)%nat.
+Proof. exact usage_measure. Qed.
+Print Assumptions C17_files_measure.
+
+(* non-vacuity: three files (small, small, large), two streams, small quota 1:
+   the second small file has to wait for the first one's slot; after both are
+   done everything was begun once *)
+Definition ex_cfg : cfg := mkCfg 2 100 1000 1 4 0.
+Definition ex_files : list (Z * Z) := [(1, 10); (2, 20); (3, 5000)].
+Example C17_files_example :
+  let u := urun (uinit ex_cfg 2 ex_files) [UNext 1 0; UNext 2 0; UNext 3 0; UDone 1; UNext 4 0; UDone 3; UDone 2; UNext 5 0] in
+  begun u = [2; 3; 1] /\ active u = [].
+Proof. vm_compute. split; reflexivity. Qed.
+End Files.
+
+Module Usage.
+Import String.
+Local Open Scope string_scope.
+(* the usage machine is the sender's pattern: the scheduler's call sites, the
+   pending/started marking around them, Remove only after the FileDone wait and
+   the stream bound on activateNext, all read off multistream.go on this run *)
+Theorem C17_files_usage_is_source :
+  Gen.SchedUse.sched_calls = [("", "Add"); ("activateNext", "Next"); ("activateNext", "Add"); ("sendFileEnd", "Remove")] /\
+  Gen.SchedUse.activate_steps = ["sched.Next"; "meta.StartedAt"; "meta.LastScheduledAt"; "sched.Add"] /\
+  existsb (String.eqb "StartedAt") Gen.SchedUse.sched_init_meta_fields = false /\
+  (Gen.SchedUse.activate_call_sites = 1%nat /\ Gen.SchedUse.activate_loop_guards = ["len(activeFiles) < parallelStreams"]) /\
+  Nat.ltb (Proofs.SchedUse.index_of "wait" Gen.SchedUse.sendfileend_calls)
+          (Proofs.SchedUse.index_of "Remove" Gen.SchedUse.sendfileend_calls) = true.
+Proof.
+  exact (conj Proofs.SchedUse.sched_call_sites (conj Proofs.SchedUse.activate_order
+        (conj (proj1 Proofs.SchedUse.sched_init_pending) (conj Proofs.SchedUse.activate_guarded
+        (proj1 (proj2 Proofs.SchedUse.remove_after_done)))))).
+Qed.
+Print Assumptions C17_files_usage_is_source.
+
+End Usage.
